@@ -38,6 +38,7 @@ def plan(tier, seed):
             for dim in (1, 2) for wv in (['haar', 'db2', 'db5', 'sym4', 'coif2'] + (['db12', 'sym11', 'coif6'] if dense else []))]
     return {
         'groups': gs,
+        'lean_lemmas': ['adjoint_of_comp', 'inner_preserved', 'norm_preserved', 'pr_levels'],
         'native': [('oracle_dwt.py', [seed], 'oracle: spec functions vs pywt.dwt/idwt'),
                    ('bounded.py', [write_jobs('C17', jobs), seed], 'bounded: energy preservation and inverse(g)==backprop(g) on the real modules')],
         'level': 'proof', 'trusted_base': TRUSTED,
